@@ -28,6 +28,10 @@ _TYPES = {
 _MISSING = object()
 
 
+def _CALLABLE(*a, **k):  # placeholder for function values met while evaluating tables
+    raise Unmodelled("call of an opaque function value")
+
+
 def concrete(t: T, env: dict, funcs: dict | None = None):
     """Evaluate term t; env maps atom terms (by identity) to Python values."""
     funcs = funcs or {}
@@ -178,6 +182,8 @@ def concrete(t: T, env: dict, funcs: dict | None = None):
                     return funcs[key](recv, *[ev(y) for y in args], **{k: ev(v) for k, v in kwargs})
                 raise Unmodelled("." + m)
             raise Unmodelled(f.op)
+        if op in ("lam", "lambda", "closure", "boundmethod"):
+            return _CALLABLE  # an opaque callable: only its presence (e.g. as a table value) can matter
         if op == "comp":
             # comprehension / generator expression with one `for`: the bound variable occurs as elem(<iterable term>)
             kind, body, gens = a[0], a[1], a[2]
